@@ -14,10 +14,15 @@ using namespace bspline;
 using namespace bspline::operators;
 
 // class-type scalar whose conversion from int is not a constant expression, so that
-// function-local statics of type T (Spline::isZero) need a dynamic-initialisation guard
+// function-local statics of type T (Spline::isZero) need a dynamic-initialisation guard; it is deliberately NOT trivially
+// copyable / destructible (user-provided copy operations and destructor), like the multiprecision types the README
+// advertises: code paths selected by std::is_trivially_copyable / is_arithmetic for "heavy" scalars are taken with it
 struct Dbl {
   double v;
   Dbl() : v(0) {}
+  Dbl(const Dbl &o) : v(o.v) {}
+  Dbl &operator=(const Dbl &o) { v = o.v; return *this; }
+  ~Dbl() {}
   __attribute__((noinline)) Dbl(int i) : v(i) { asm volatile("" ::: "memory"); }
   static Dbl from(double d) { Dbl r; r.v = d; return r; }
   Dbl &operator+=(const Dbl &o) { v += o.v; return *this; }
@@ -36,6 +41,7 @@ struct Dbl {
   friend bool operator==(const Dbl &a, const Dbl &b) { return a.v == b.v; }
   friend bool operator!=(const Dbl &a, const Dbl &b) { return a.v != b.v; }
 };
+static_assert(!std::is_trivially_copyable_v<Dbl> && !std::is_trivially_destructible_v<Dbl> && !std::is_arithmetic_v<Dbl>);
 static double dv(double x) { return x; }
 static double dv(const Dbl &x) { return x.v; }
 template <class T> static T mk(double x) { if constexpr (std::is_same_v<T, Dbl>) return Dbl::from(x); else return T(x); }
@@ -210,6 +216,19 @@ struct World {
         d.u(g3 == *grid);
         break;
       }
+      case 13: {  // copy + use + destroy generators, operator expressions (spline factor inside) and forms
+        BSplineGenerator<T> g2(*gen);
+        d.u(g2.getGrid().size());
+        auto v = g2.template generateBSplines<1>();
+        d.u(v.size());
+        OpE e2(*opexpr);
+        d.spline(e2 * *b);
+        BF f2(*bf);
+        d.val(f2(*a, *b));
+        LF l2(*lf);
+        d.val(l2(*b));
+        break;
+      }
       case 8: {  // support algebra on shared const supports
         auto u1 = sup->calcUnion(a->getSupport());
         auto i1 = sup->calcIntersection(b->getSupport());
@@ -224,9 +243,9 @@ struct World {
 
 static World<double> *w0;
 static World<Dbl> *w1;
-static const char *OPN[] = {"evaluate", "copy+destroy", "combine", "transform", "integrate", "generate", "isZero", "destroy-owned", "support-algebra", "combine-with-equal-grid-copy", "position-powers", "lincomb+quadrature", "move-owned+grid-data"};
+static const char *OPN[] = {"evaluate", "copy+destroy", "combine", "transform", "integrate", "generate", "isZero", "destroy-owned", "support-algebra", "combine-with-equal-grid-copy", "position-powers", "lincomb+quadrature", "move-owned+grid-data", "copy-generator+operator+forms"};
 extern "C" {
-int c18_nops() { return 13; }
+int c18_nops() { return 14; }
 const char *c18_opname(int op) { return OPN[op]; }
 void c18_setup(int variant) {
   if (variant == 0) { w0 = new World<double>(); w0->setup(); }
